@@ -61,6 +61,7 @@ fn alphabet(thorough: bool) -> Alphabet {
                 lock_req(Entry::Transfer, 100_000, Rcpt::Unified, Conf::Default, LockPol::PreferLockedX, Pools::All, (1, 50)),
                 lock_req(Entry::SendMax, 0, Rcpt::Sapling, Conf::Min, LockPol::Exclude, Pools::SaplingOnly, (0, 50)),
                 lock_req(Entry::Standard, 30_000, Rcpt::Unified, Conf::Default, LockPol::Exclude, Pools::All, (0, 50)),
+                lock_req(Entry::Shield, 10_000, Rcpt::Sapling, Conf::Min, LockPol::Exclude, Pools::All, (1, 50)),
             ],
         }
     } else {
@@ -83,8 +84,9 @@ struct Search {
     thorough_alphabet: bool,
     /// maximal depth per start state (full, gap, short)
     depth_by_start: [usize; 3],
-    /// lattice level evaluated in a state first reached at depth d: 0 = core, 1 = quick, 2 = thorough
-    level_at_depth: fn(usize) -> usize,
+    /// lattice level evaluated in a state first reached at depth d from start state s (0 full, 1 gap,
+    /// 2 short): 0 = core, 1 = quick, 2 = thorough
+    level_at_depth: fn(usize, usize) -> usize,
     /// share of the remaining wall budget this search may use
     wall_share: f64,
 }
@@ -95,13 +97,13 @@ fn searches(tier: Tier) -> (Vec<Search>, f64) {
     let cap = |d: usize| depth_env.map(|e| e.min(d)).unwrap_or(d);
     match tier {
         Tier::Quick => (
-            vec![Search { name: "quick", thorough_alphabet: false, depth_by_start: [cap(3), cap(2), cap(2)], level_at_depth: |d| if d <= 2 { 1 } else { 0 }, wall_share: 1.0 }],
+            vec![Search { name: "quick", thorough_alphabet: false, depth_by_start: [cap(3), cap(2), cap(2)], level_at_depth: |s, d| if d <= 1 || (s == 0 && d <= 2) { 1 } else { 0 }, wall_share: 1.0 }],
             wall_env.unwrap_or(48.0),
         ),
         Tier::Thorough => (
             vec![
-                Search { name: "wide", thorough_alphabet: true, depth_by_start: [cap(2), cap(2), cap(2)], level_at_depth: |d| if d <= 1 { 2 } else { 1 }, wall_share: 0.5 },
-                Search { name: "deep", thorough_alphabet: false, depth_by_start: [cap(4), cap(3), cap(3)], level_at_depth: |d| if d <= 2 { 1 } else { 0 }, wall_share: 1.0 },
+                Search { name: "wide", thorough_alphabet: true, depth_by_start: [cap(2), cap(2), cap(2)], level_at_depth: |_, d| if d <= 1 { 2 } else { 1 }, wall_share: 0.5 },
+                Search { name: "deep", thorough_alphabet: false, depth_by_start: [cap(4), cap(3), cap(3)], level_at_depth: |_, d| if d <= 2 { 1 } else { 0 }, wall_share: 1.0 },
             ],
             wall_env.unwrap_or(660.0),
         ),
@@ -178,7 +180,7 @@ fn check_case(start: usize, ops: &[Op], req: Option<&Req>, level: usize) -> Resu
             let lat = oracle::lattice(level);
             let (_, fails, _) = oracle::eval_state(env, &mut w, &m, &lat);
             match fails.into_iter().next() {
-                Some((r, msg)) => Err(format!("[{}] {msg}", r.key())),
+                Some((r, msg)) => Err(format!("[{}] {msg}", r.map(|r| r.key()).unwrap_or("whole lattice".into()))),
                 None => Ok(()),
             }
         }
@@ -383,7 +385,7 @@ impl Shared<'_> {
         self.add_outs(tags.into_iter().map(String::from).collect());
         let bad = !fails.is_empty();
         for (r, msg) in fails {
-            self.failures.lock().unwrap().push(Found { start, ops: ops.to_vec(), req: Some(r), level, msg });
+            self.failures.lock().unwrap().push(Found { start, ops: ops.to_vec(), req: r, level, msg });
         }
         (n, bad)
     }
@@ -416,7 +418,7 @@ fn search(sh: &Shared, sp: &Search, deadline_s: f64, tot: &mut Totals) -> (Value
                 sh.failures.lock().unwrap().push(Found { start: si, ops: vec![], req: None, level: 0, msg });
             }
             let snap = Arc::new(db::snapshot(w.db.conn()));
-            let (n, _) = sh.evaluate(w, &m, key, (sp.level_at_depth)(0), si, &[]);
+            let (n, _) = sh.evaluate(w, &m, key, (sp.level_at_depth)(si, 0), si, &[]);
             if n > 0 {
                 evaluated_states.fetch_add(1, Ordering::Relaxed);
                 sh.add_outs(vec![format!("state:start:{}", env.starts[si].0)]);
@@ -498,7 +500,6 @@ fn search(sh: &Shared, sp: &Search, deadline_s: f64, tot: &mut Totals) -> (Value
             eprintln!("{} depth {depth}: frontier {} transitions {} new states {} elapsed {:.1}s", sp.name, frontier.len(), items.len(), chosen.len(), sh.t0.elapsed().as_secs_f64());
         }
         // phase 2: re-create each new state, snapshot it (if it will be expanded), evaluate the lattice in it
-        let level = (sp.level_at_depth)(depth + 1);
         let next: Vec<Option<Node>> = par_map(
             &chosen,
             || db::new_wallet(&env.u, uni::RETENTION, false),
@@ -525,7 +526,7 @@ fn search(sh: &Shared, sp: &Search, deadline_s: f64, tot: &mut Totals) -> (Value
                 }
                 let expand = depth + 1 < sp.depth_by_start[src.start];
                 let snap = expand.then(|| Arc::new(db::snapshot(w.db.conn())));
-                let (n, bad) = sh.evaluate(w, &m, *key, level, src.start, &ops);
+                let (n, bad) = sh.evaluate(w, &m, *key, (sp.level_at_depth)(src.start, depth + 1), src.start, &ops);
                 evals.fetch_add(n, Ordering::Relaxed);
                 if n > 0 {
                     evaluated_states.fetch_add(1, Ordering::Relaxed);
@@ -565,7 +566,7 @@ fn search(sh: &Shared, sp: &Search, deadline_s: f64, tot: &mut Totals) -> (Value
                      "store_pending": "P0, P1 (when their inputs are live and build target <= target height <= expiry)", "mine": "stored un-mined pending transactions",
                      "advance": al.advance, "rewind_back": al.rewind, "fill_gap": true, "lock_taking_proposals": al.proposals.iter().map(|r| r.key()).collect::<Vec<_>>()},
         "depth_by_start": {"full": sp.depth_by_start[0], "gap": sp.depth_by_start[1], "short": sp.depth_by_start[2]},
-        "lattice_level_by_depth": (0..=max_depth).map(|d| ["core", "quick", "thorough"][(sp.level_at_depth)(d)]).collect::<Vec<_>>(),
+        "lattice_level_by_start_and_depth": (0..3).map(|s| (0..=sp.depth_by_start[s]).map(|d| ["core", "quick", "thorough"][(sp.level_at_depth)(s, d)]).collect::<Vec<_>>()).collect::<Vec<_>>(),
         "completed_depth": completed_depth, "per_depth_new_states": per_depth,
         "states": states, "states_evaluated_here": evaluated_states.load(Ordering::Relaxed), "transitions": transitions, "proposal_calls": evals, "capped": cap,
     });
@@ -607,7 +608,7 @@ pub fn run(args: &Args) -> i32 {
     run.assume("confirmations are counted as in the ConfirmationsPolicy documentation (blocks since and including the mining block = target height - mined height); notes received under the internal key scope need `trusted` confirmations, all other receipts `untrusted` (no transaction of the universe is user-trusted, none shields transparent funds)");
     run.assume("a lock is active while lock_expiry_height >= target height = chain tip + 1 (data_api/locking.rs); a stored transaction is unexpired while expiry_height >= target height (wallet/common.rs tx_unexpired_condition)");
     run.assume("pending transactions are real Sapling-only transactions built once by create_proposed_transactions with the sapling mock provers and re-injected through store_transactions_to_be_sent; they spend no Orchard/Ironwood/transparent inputs (DESIGN.md stated bound)");
-    run.assume("the wallet holds no transparent funds: propose_shielding / propose_shielding_coinbase and transparent spend policies are not covered; any transparent input in a proposal is reported");
+    run.assume("transparent coins (two of account A, one of account B) are reported to the wallet in the start states through put_received_transparent_utxo and are never spent; a rewind below a coin's height un-mines it in the wallet and nothing re-mines it; coins need 0 confirmations when the policy allows zero-conf shielding, else `untrusted` confirmations (ConfirmationsPolicy docs); propose_shielding_coinbase, coinbase maturity and ephemeral (TEX) coins are not covered");
     run.assume("the reference upper bound of spendable value counts every unspent, confirmed, not pending-spent, unlocked-or-overridable note of the permitted pools including dust; minimum fee = 10_000 (ZIP 317)");
     run.assume("the anchor of a step must not be above target height minus the policy's trusted confirmations (ConfirmationsPolicy::anchor_height documentation); a lower (bucketed, ZIP 318) anchor is accepted");
 
@@ -669,6 +670,9 @@ pub fn run(args: &Args) -> i32 {
         "transfer:ok",
         "standard:ok",
         "sendmax:ok",
+        "shield:ok",
+        "shield:err:InsufficientFunds",
+        "ok:transparent-input",
         "transfer:err:InsufficientFunds",
         "ok:locked-note-skipped",
         "ok:pending-spent-note-skipped",
